@@ -167,8 +167,8 @@ def print_experiments(block, experiments):
         given a ``name``, each experiment's output is divided into sections
         labeled by that name (one section per diagonal).
     """
-    # Restore continuous factors for printing trials
-    block.restore_continuous()
+    # Continuous factors are printed from `block.orig_design`, which still lists
+    # them; the block itself is left unchanged, so it can be sampled again
 
     ls_name = None
     ls_dlen = 0
